@@ -392,6 +392,22 @@ class Interp:
             return self.call(e, env)
         if isinstance(e, ast.Starred):
             return self.ev(e.value, env)
+        if isinstance(e, (ast.ListComp, ast.GeneratorExp)):
+            # comprehension over concrete / symbolic collections: same iteration model as `for`
+            out = []
+
+            def gen(i, env_):
+                if i == len(e.generators):
+                    out.append(self.ev(e.elt, env_))
+                    return
+                g = e.generators[i]
+                for item in self.iterate(self.ev(g.iter, env_), g.iter):
+                    env2 = dict(env_)
+                    self.assign(g.target, item, env2)
+                    if all(self.truth(c, env2) for c in g.ifs):
+                        gen(i + 1, env2)
+            gen(0, dict(env))
+            return out
         raise AnalysisError("emit2: expression kind %s not modelled: `%s`" % (type(e).__name__, src(e)[:80]))
 
     def call(self, e, env):
